@@ -259,6 +259,7 @@ func runC13(r *core.Run) {
 		if r.Chance(20, "snapshot?") {
 			q.SnapshotDir = "snap"
 		}
+		q.KeepGoing = r.Chance(15, "keep-going?")
 		if longLived && !q.ViaCLI {
 			// one long-lived endorse.Context serves every run of the history
 			if sharedCtx == nil {
